@@ -32,7 +32,7 @@ func TestVerifSim(t *testing.T) {
 			"Non-trivial = at least two calls were in flight together AND at least one call returned its own response AND " +
 			"(a fault fired OR a call timed out / was cancelled OR a frame was delivered in more than one chunk).",
 		Assumptions: []string{"testing/synctest fake clock and quiescence semantics (go1.26.8)",
-			"a delivery step never completes more than one frame and at most one operation is started per step, so intra-step goroutine races in real code do not decide outcomes (explored interleavings are at simulator-event granularity)",
+			"a delivery step never completes more than one frame, waking a blocked writer is a separate step, and at most one operation is started per step, so intra-step goroutine races in real code do not decide outcomes (explored interleavings are at simulator-event granularity)",
 			"at most one operation at a time is inside a pool slot's dial (no concurrent waiters on one dial)",
 			"header faults are the malformed-header classes of the statement (magic, version, flags, reserved, kind, priority, oversize body); corruption that yields another valid header is out of scope",
 			"header round-trip is checked only for the headers this traffic produces (kinds data/notify/request/response, 4 priorities, 3 service ids, body lengths 0..MaxFrameBodyBytes)"},
@@ -1032,9 +1032,19 @@ func (w *world) collect() []simkit.Action {
 			ok := !d.reset && !d.readerClosed && !now.Before(d.stalledUntil)
 			inflight := d.inflight()
 			eof := inflight == 0 && d.writerClosed && !d.eofDelivered
+			wspace := d.writerBlocked && d.spaceCh != nil && inflight < d.capBytes
 			w.mu.Unlock()
 			if !ok {
 				continue
+			}
+			if wspace {
+				// the window update that lets a blocked writer continue is its own event:
+				// waking reader and writer in one step would race them against each other
+				acts = append(acts, simkit.Action{Prio: 0, Key: fmt.Sprintf("wspace c%d %s", cn.id, d.name), Weight: 30, Do: func() {
+					w.mu.Lock()
+					wake(&d.spaceCh)
+					w.mu.Unlock()
+				}})
 			}
 			if inflight > 0 {
 				acts = append(acts, simkit.Action{Prio: 0, Key: fmt.Sprintf("deliver c%d %s", cn.id, d.name), Weight: 30, Do: func() { w.deliver(d) }})
@@ -1186,7 +1196,6 @@ func (w *world) deliver(d *dirState) {
 	}
 	d.delivered += n
 	wake(&d.dataCh)
-	wake(&d.spaceCh)
 	where := ""
 	if fr != nil {
 		off := d.delivered - fr.start
